@@ -581,6 +581,13 @@ class HistoryRun(object):
                         if [kid, e[1]] in before["unsent"]:
                             self.stale_consumed.add((kid, b["value"]))
                             self.stale_serial.add((kid, e[1]))
+                        if (kid, b["value"]) in consumed_keys:
+                            # "after which it cannot be used again": a second first message (another sender, other
+                            # base key) naming a key that a first message already used up was accepted
+                            self.problems.append(("oracle:consumed_key_used_again", {
+                                "step": len(self.ops) - 1, "id": kid,
+                                "what": "one-time prekey %d was consumed by a first message and a later first message "
+                                        "naming the same key was accepted again" % kid}, None))
                         offered_live.pop((kid, b["value"]), None)
                         consumed_ids.add(kid)
                         consumed_keys.add((kid, b["value"]))
